@@ -176,6 +176,29 @@ PLANS = {
         "assumptions": ["the character table of harness/chars.go maps each model character to exactly one rune",
                         "TLC, Json module, harness recording, VerifLex hook"],
     },
+    "C06": {
+        "mc": {"quick": [{"module": "MCParse", "cfg": "cfg/MCParse.quick.cfg"},
+                         {"module": "MCEval", "cfg": "cfg/MCEval.C06.quick.cfg"}],
+               "thorough": [{"module": "MCParse", "cfg": "cfg/MCParse.thorough.cfg", "timeout": 3400},
+                            {"module": "MCEval", "cfg": "cfg/MCEval.C06.thorough.cfg", "timeout": 3400}]},
+        "drive": {"quick": [{"args": ["total", "-exh", "4", "-n", "3000", "-depth", "4", "-seed", "{seed}", "-tier", "quick"]}],
+                  "thorough": [{"args": ["total", "-exh", "5", "-n", "60000", "-depth", "5", "-seed", "{seed}", "-tier", "thorough"],
+                                "timeout": 3400}]},
+        "judge": {"module": "JudgeTotal", "cfg": "JudgeTotal.cfg"},
+        "replay_args": ["total", "-exh", "0", "-n", "0"],
+        "engine": "frontend",
+        "rule": "kind text: one case = (text, notation in {prefix, infix}, undefined-variable mode on/off): every text up to the "
+                "exhaustive length over 14 characters, every token sequence one shorter over 18 tokens, random longer token "
+                "sequences, every truncation and random token mutations of valid expressions, huge / deep / non-ASCII / "
+                "invalid-UTF-8 inputs; Compile under recover(), then Eval, TryEval (3 bindings incl. lists, sets, nil), Dump, "
+                "DumpTable on what compiled, with a watchdog; kind op: every operator and alias applied to 0..4 parameters over "
+                "the whole value universe (bools, ints incl. extremes, strings, lists, sets, nil, DNE), plain and fast path; "
+                "judged: result or error, never a panic / both / neither / hang; non-trivial = a rejected text of two or more "
+                "characters, an accepted text, or an operator error",
+        "sample": lambda o: ({"text": o.get("srctext"), "outcomes": [m["cout"] for m in o["modes"]]} if o["kind"] == "text"
+                             else {"call": o["src"], "params": o["ps"], "outcomes": o["outs"]}),
+        "assumptions": ["watchdog of 20 s per call decides 'hang'", "TLC, Json module, harness recording"],
+    },
 }
 
 ENGINES = [
@@ -187,7 +210,7 @@ ENGINES = [
 ENGINES.append({"name": "capacity", "path": "spec/Capacity.tla, MCCap.tla, JudgeCap.tla + harness/fam_cap.go",
                 "serves_properties": ["C09"],
                 "kind_free_text": "scaled-down limits model-checked; real limits judged by closed forms"})
-ENGINES.append({"name": "frontend", "path": "spec/Lexer.tla, Formatter.tla, MCLayout.tla, JudgeLayout.tla + harness/fam_layout.go",
-                "serves_properties": ["C14"],
+ENGINES.append({"name": "frontend", "path": "spec/Lexer.tla, Formatter.tla, Parser.tla, MCLayout.tla, MCParse.tla, JudgeLayout.tla, JudgeTotal.tla + harness/fam_layout.go, fam_total.go",
+                "serves_properties": ["C06", "C14"],
                 "kind_free_text": "lexer and formatter as character-level machines over model characters; exhaustive short texts; trace validation of the real lexer/formatter"})
 NOT_APPLICABLE = {}
